@@ -28,7 +28,7 @@ def cmp_pair(rng, w, n):
     return "agree%d" % k, a, b
 
 
-def gen(rng, tier):
+def _gen_main(rng, tier):
     reps = 150 if tier == "thorough" else 20
     for cfg in cfgs(tier):
         w, n = wn(cfg)
@@ -53,3 +53,17 @@ def gen(rng, tier):
                 for a in range(256):
                     for b in range(256):
                         yield f"{op} {s}8x1 {hx(a)} {hx(b)}", "exhaustive8"
+
+
+def gen(rng, tier):
+    yield from _gen_main(rng, tier)
+    yield from _grid(rng, tier)
+
+
+def _grid(rng, tier):
+    lim = 20000 if tier == "thorough" else 700
+    for cfg in GRID_CFGS:
+        for s in "ui":
+            for op in ("cmp", "op_lt", "eq", "max"):
+                for a, b in grid_pairs(rng, cfg, lim):
+                    yield f"{op} {s}{cfg} {hx(a)} {hx(b)}", "edge-grid"
